@@ -207,6 +207,13 @@ class Check:
         self.axioms_used = {}
         self.checker_cmd = ""
         self.work = os.path.join(WORK, pid)
+        if os.environ.get("VERIF_ARIM_SRC"):
+            # development run against a scratch copy of the sources (seeded changes): several such runs of one property may
+            # be alive at once, so each gets a private scratch directory, removed when the process ends
+            import atexit
+            import shutil
+            self.work = os.path.join(WORK, f"{pid}.dev{os.getpid()}")
+            atexit.register(shutil.rmtree, self.work, ignore_errors=True)
         os.makedirs(self.work, exist_ok=True)
         os.makedirs(os.path.join(VERIF, "replay"), exist_ok=True)
         os.makedirs(os.path.join(VERIF, "evidence"), exist_ok=True)
